@@ -741,11 +741,41 @@ def _excluded(out, col, values, route, case):
 _H5 = {"file": None, "path": None, "count": 0, "db": None, "dbcount": 0, "dbname": None}
 
 
+def _ensure_workdir():
+    """Scratch cwd + fast path of this process.  A pool process that runs a second shard has had its scratch
+    directory removed by the runner (env.cleanup_scratch) while env.configure() stays a no-op: re-establish both."""
+    from armi import context
+
+    from vp import env
+
+    d = env.scratch_dir()
+    if os.getcwd() != d:
+        os.chdir(d)
+    fp = os.path.join(d, "fast")
+    if not os.path.isdir(fp):
+        os.makedirs(fp, exist_ok=True)
+    if context._FAST_PATH != fp:
+        context._FAST_PATH = fp
+        context._FAST_PATH_IS_TEMPORARY = False
+    if _H5.get("scratch") != d:  # handles into a removed directory: forget them
+        for key in ("file", "db"):
+            h = _H5[key]
+            _H5[key] = None
+            if h is not None:
+                try:
+                    h.close()
+                except Exception:  # noqa: BLE001
+                    pass
+        _H5["scratch"] = d
+    return d
+
+
 def _h5group():
     import h5py
 
     from vp import env
 
+    _ensure_workdir()
     if _H5["file"] is None or _H5["count"] >= 400:
         _h5close()
         _H5["path"] = os.path.join(env.scratch_dir(), "c05_l0_%d.h5" % os.getpid())
@@ -768,6 +798,7 @@ def _h5close():
 def _dbgroup():
     from armi.bookkeeping.db.database import Database
 
+    _ensure_workdir()
     if _H5["db"] is None or _H5["dbcount"] >= 400:
         _dbclose()
         _H5["dbname"] = "c05_l1_%d.h5" % os.getpid()
@@ -1230,6 +1261,7 @@ def l2_execute(case):
     from vp.gen import reactor as rg
 
     out = Out()
+    _ensure_workdir()
     col = case["col"]
     level, pname = _L2_TARGETS[case["target"]]
     cs, bp, r = rg.build(case["spec"])
